@@ -289,6 +289,38 @@ func c10Semantics(c *fw.Ctx, nodes []*mnode) {
 			c.Violation("render-with-defaults", "template %q: Evaluate() = %q (%v), reference on the default variables gives %q", text, got, eerr, want.String())
 		}
 	}
+	// a map the caller owns goes through the life cycle of ANOTHER template object (handed in as its
+	// defaults, template set, rendered, object cleared) and is then used for rendering here: the result
+	// is what the map held when the caller built it (entries the library adds for missing names are
+	// empty, and an empty value renders like an absent one)
+	for _, m := range mMaps() {
+		if len(m) == 0 {
+			continue
+		}
+		shared := map[string]string{}
+		for k, v := range m {
+			shared[k] = v
+		}
+		var want strings.Builder
+		mRender(nodes, m, &want)
+		var got string
+		var eerr error
+		pv := fw.Try(func() {
+			other := mustache.NewMustacheTemplate()
+			other.SetDefaultVariables(shared)
+			other.SetTemplate(text)
+			other.Evaluate()
+			other.Clear()
+			other.SetTemplate("{{zz}}")
+			other.Clear()
+			got, eerr = t.EvaluateWithVariables(shared)
+		})
+		c.Eval(1)
+		if pv != nil || eerr != nil || got != want.String() {
+			c.Violation("callers-map-changed-by-another-template", "template %q with the map %q after that map was the default map of another template object (SetDefaultVariables, SetTemplate, Evaluate, Clear): renders %q (error %v, panic %v), reference semantics give %q; the map now holds %q", text, fmt.Sprint(m), got, eerr, pv, want.String(), fmt.Sprint(shared))
+			return
+		}
+	}
 	c.Outcome("rendered")
 }
 
